@@ -113,6 +113,7 @@ type Interp struct {
 	sch     *sched
 	numCPU  int
 	allowCrash bool
+	stdout  []*Term
 }
 
 type deferred struct {
@@ -325,6 +326,11 @@ func (pr *Program) initGlobalLocked(g *ssa.Global) *Value {
 		pr.runInit(pkg)
 	}
 	s, ok := pr.initGlob[g]
+	if ok && pkg.Pkg.Path() == "os" && (g.Name() == "Stdout" || g.Name() == "Stderr" || g.Name() == "Stdin") {
+		if _, isHost := (*s).(*HostObj); !isHost {
+			*s = &HostObj{Kind: "os." + g.Name()}
+		}
+	}
 	if !ok {
 		s = new(Value)
 		ip := pr.initInterp()
